@@ -19,6 +19,12 @@ def plan(ctx):
         n = 1 if key[0].startswith("dec") else 2
         for m in rnd.sample(ms, min(n, len(ms))):
             quick.add(m["name"])
+    # shape classes that must always be present: first-chunk padding (r <= k < chunk) for the encoder, gap configurations for the decoder
+    pad = [m for m in fam if m["kind"] == "enc_after_reset" and (m["k"], m["r"]) in ((3, 3), (5, 5)) and m["rate"] == "high"]
+    quick.add(rnd.choice(pad)["name"])
+    quick.add(rnd.choice([m for m in fam if m["kind"] == "enc_rdr" and (m["k"], m["r"]) == (3, 3) and m["rate"] == "high"])["name"])
+    gap = [m for m in fam if m["kind"] == "dec_rdr" and (m["k"], m["r"]) == (3, 3)]
+    quick.add(rnd.choice([m for m in gap if m["rate"] == "high"])["name"])
     miss = [m for m in fam if m["kind"] == "dec_after_reset" and m["rate"] == "high" and bin(m["rm"]).count("1") < m["r"]]
     quick.add(rnd.choice(miss)["name"])
     quick.add(rnd.choice([m for m in fam if m["kind"] == "dec_rdr" and bin(m["rm"]).count("1") < m["r"] and m["rate"] == "high"])["name"]) if any(m["kind"] == "dec_rdr" and bin(m["rm"]).count("1") < m["r"] and m["rate"] == "high" for m in fam) else None
